@@ -145,6 +145,10 @@ def run_property(pid, tier, only=None, keep=False, seed=0):
             sched = Sched()
 
             def work(u):
+                # experiments: KV_MEM_OVERRIDE="unit=GB,unit=GB"
+                for kv in os.environ.get("KV_MEM_OVERRIDE", "").split(","):
+                    if "=" in kv and kv.split("=")[0] == u.name:
+                        u.mem_gb = int(kv.split("=")[1])
                 sched.acquire(u.mem_gb)
                 try:
                     log("run", u.name)
